@@ -76,7 +76,7 @@ register(Prop(
     # 'ka': the witnesses of F7 / F8 (findings of C19 AND C16) are ka lines; they are judged by `life_oracle`
     # (= the C19 oracle on ka lines), not literally (the specification line of a ka scenario has no window field)
     'C16', 'Mqtt.Properties.C16', ['life', 'ka'],
-    runs=[Run('life', quick=12, thorough=44, seeds_thorough=2),
+    runs=[Run('life', quick=13, thorough=44, seeds_thorough=2),
           Run('life-pairs', quick=9, thorough=36, seeds_thorough=2),
           Run('life-srv', quick=5, thorough=20, seeds_thorough=2),
           Run('life-chunked', quick=5, thorough=14, seeds_thorough=1, extra=())],
